@@ -25,7 +25,9 @@ Open Scope Z_scope.
 
 Definition bank := nat -> nat -> Z.            (* address -> denom -> balance *)
 
-Record env := mkEnv { e_pool : nat -> nat; e_treas : nat -> nat; e_rev : nat -> nat }.
+(* e_blocked: bank's blocked-address list (module accounts that must not receive funds), consulted by the swap
+   handlers since fix: a75f29f *)
+Record env := mkEnv { e_pool : nat -> nat; e_treas : nat -> nat; e_rev : nat -> nat; e_blocked : nat -> bool }.
 
 Inductive role := RPool | RTreas | RRev.
 Definition role_addr (e : env) (p : nat) (r : role) : nat :=
@@ -187,6 +189,7 @@ Record st := mkSt { s_bank : bank; s_q : list req; s_last : nat }.
 (* the handler: dry run on a cache context that is dropped, then Set...Requests(index = last+1) *)
 Definition enqueue (e : env) (s : st) (m : msg) (c : choice) : res st :=
   let r := msg_req m in
+  if e_blocked e (r_rcpt r) then Err 12 else      (* recipient is a blocked module account *)
   do _ <- settle e (s_bank s) r c;
   if negb (Nat.eqb (r_idx r) (S (s_last s))) then Err 99 else
   Ok (mkSt (s_bank s) (s_q s ++ [r]) (S (s_last s))).
